@@ -2476,8 +2476,13 @@ refill(struct evrrul_s *restrict strm)
  * http://icalevents.com/2447-need-to-know-the-possible-combinations-for-repeating-dates-an-ical-cheatsheet/
  * we're trying to follow that one closely. */
 	struct rrulsp_s *restrict rr = &strm->rrul;
+	/* the one we handed out last, local times that don't exist or
+	 * exist twice may lead us there again */
+	const echs_instant_t last = strm->ncch
+		? strm->cch[strm->ncch - 1U] : echs_nul_instant();
 
 	assert(rr->freq > FREQ_NONE);
+again:
 	if (UNLIKELY(echs_nul_instant_p(strm->seed))) {
 		return 0UL;
 	} else if (UNLIKELY(!rr->count)) {
@@ -2562,6 +2567,23 @@ refill(struct evrrul_s *restrict strm)
 	}
 	/* otherwise sort the array, just in case */
 	echs_instant_sort(strm->cch, strm->ncch);
+	if (strm->zon) {
+		/* several local times on one instant, one's enough */
+		size_t j = 0U;
+
+		for (size_t i = 0U; i < strm->ncch; i++) {
+			if (echs_instant_eq_p(
+				    strm->cch[i],
+				    j ? strm->cch[j - 1U] : last)) {
+				continue;
+			}
+			strm->cch[j++] = strm->cch[i];
+		}
+		if (UNLIKELY(!(strm->ncch = j))) {
+			/* nothing new then */
+			goto again;
+		}
+	}
 	return strm->ncch;
 }
 
